@@ -70,3 +70,9 @@ CASES += [
          old="   if (argpos != mRemainingArguments.end())\n      mRemainingArguments.erase( argpos);",
          new="   if (!mRemainingArguments.empty())\n      mRemainingArguments.erase( argpos);"),
 ]
+
+ALI4 = 'src/celma/prog_args/detail/arg_list_iterator.hpp'
+CASES += [
+    dict(id='c04-eq-postfix-increment-try-block', prop='C04', file=H, expect=None,
+         old="   if (mUsedByGroup)\n      Groups::instance().crossCheckArguments( this);\n\n   return ah_obj;", new="   if (mUsedByGroup)\n   {\n      Groups::instance().crossCheckArguments( this);\n   } // end if\n\n   return ah_obj;"),
+]
